@@ -574,6 +574,45 @@ def _replace_probes(ctx, fails):
                 fails.append((f'C17:set-raises', f'replace probe {text[:30]!r}[{idx}]: {type(e).__name__}: {str(e)[:100]}', rep))
 
 
+def _first_block_probes(ctx, fails):
+    """The first block of the store at or under half the load factor with another block behind it (a deep copy spreads
+    its tokens evenly over the blocks; so does a constructed tree): one spacing assignment at every accessor-bearing
+    model of the copy, for every load factor 4..24 and documents of 1..6 lines - all non-blank text and its order are
+    unchanged, the assigned gap reads back."""
+    import session, copy
+    for lf in range(4, 25):
+        for k in range(1, 7):
+            text = ''.join(f'2000-01-0{i + 1} open Assets:A{i}  USD\n' for i in range(k))
+            rep = {'check': 'first-block', 'lf': lf, 'k': k}
+            session.set_lf(lf)
+            try:
+                f0 = edits.P().parse(text, models.File)
+                n_models = sum(1 for _, m in intro.walk(f0) if has_acc(m))
+                for j in range(n_models):
+                    for side in ('spacing_before', 'spacing_after'):
+                        f = copy.deepcopy(f0)
+                        m = [m for _, m in intro.walk(f) if has_acc(m)][j]
+                        solid = [t.raw_text for t in f.token_store if t.raw_text and not isinstance(t, BLANK)]
+                        try:
+                            setattr(m, side, '   ')
+                        except Exception as e:
+                            fails.append(('C17:set-raises', f'copy of {k} line(s), load factor {lf}, {type(m).__name__}.{side}: {type(e).__name__}: {str(e)[:80]}', dict(rep, j=j, side=side)))
+                            break
+                        after = [t.raw_text for t in f.token_store if t.raw_text and not isinstance(t, BLANK)]
+                        ctx.case(('first-block', lf, k, min(j, 3), side))
+                        if after != solid:
+                            fails.append(('C17:nonblank-changed:first-block', f'deep copy of a {k}-line document under load factor {lf}: {type(m).__name__}.{side} = 3 blanks '
+                                          f'changed the non-blank text or its order: {"".join(solid)[:60]!r} -> {"".join(after)[:60]!r}', dict(rep, j=j, side=side)))
+                            break
+                    else:
+                        continue
+                    break
+            finally:
+                session.set_lf(None)
+            if len(fails) > 40:
+                return
+
+
 def check_totok(ctx, lock, n):
     r = ctx.rng
     for _ in range(n):
@@ -636,6 +675,7 @@ def _run(ctx, n_gen, n_corpus, sets_per_doc, with_model):
         if len(fails) > 40:
             break
     _replace_probes(ctx, fails)
+    _first_block_probes(ctx, fails)
     _report(ctx, fails)
     if lock is not None:
         check_totok(ctx, lock, ctx.scale(400, 4000))
@@ -661,6 +701,8 @@ def replay(ctx, data):
         check_sides(ctx, d, fails)
     elif rep.get('check') == 'replace-probe':
         _replace_probes(ctx, fails)
+    elif rep.get('check') == 'first-block':
+        _first_block_probes(ctx, fails)
     elif rep.get('check') == 'hist':
         check_history(ctx, rep['text'], rep['auto_claim'], rep['lf'], [x if isinstance(x, dict) else tuple(x) for x in rep['steps']], fails)
     elif rep.get('check') == 'totok':
